@@ -44,6 +44,10 @@ def run_step_part(ctx, name, jobs, common, prefixes, exhaustive_family=None, nsh
     if tot['done'] != counts['records']:
         raise RuntimeError(f'{name}: TLC validated {tot["done"]} of {counts["records"]} records')
     ctx.add_tlc(tot, f'Trace_Step on {name}')
+    # a run in which (almost) every call raised cannot judge anything but totality: that is a failure of the machinery
+    # (or of the code) that must not pass silently for the properties that do not look at raises
+    if counts['acts'] and counts['raises'] > 0.5 * counts['acts'] and not any(p.startswith('C01') for p in prefixes):
+        raise RuntimeError(f'{name}: {counts["raises"]} of {counts["acts"]} calls raised; nothing to judge')
     ctx.add_counts(evaluations=counts['acts'], nontrivial=counts['nontrivial'], traces=counts['records'])
     n_viol = 0
     fam_fail = False
